@@ -854,7 +854,8 @@ def _fast_docs(x, ctx):
             if isinstance(v, FastSerializable):
                 nv = not [k for k in v.__dict__ if not k.startswith("_")]
                 try:
-                    out.append({"ok": dump.canon(_sort_doc(_dumpv(v.serialize(), ctx))), "nv": nv})
+                    # (arrays compared order-free: an array that came from a Set of structures has no fixed order)
+                    out.append({"ok": dump.canon(_sort_lists(_sort_doc(_dumpv(v.serialize(), ctx)))), "nv": nv})
                 except Exception as e:
                     out.append({"err": C.err_name(e), "msg": str(e)[:160], "nv": nv})
             for n in v.__class__.get_all_fields_by_name():
@@ -1012,7 +1013,9 @@ def run_trusted(case):
     try:
         addl = bool(decl.get("addl", True))
         ku = opts.get("keepUndefined", True)
-        res["opts_actual"] = {"keepUndefined": bool(ku if (ku is not None or addl) else True),
+        # Deserializer.deserialize: keep_undefined=None on a closed class means "as the constructor would treat them"
+        # (since 005d815: not ignore_invalid_additional_properties_in_deserialization; True before)
+        res["opts_actual"] = {"keepUndefined": bool(ku if (ku is not None or addl) else not opts.get("ignoreInvalidAddl", True)),
                               "ignoreInvalidAddl": opts.get("ignoreInvalidAddl", True)}
         res["verdict"] = verdict_of(cls)
         try:
